@@ -5,11 +5,11 @@
 //!   `begin interp <spec> <gas> <static> <code> <input> <target> <caller> <value> <env>`      -> `ok len=<bytecode len> pc=0`
 //!       `<spec>` = `SpecId as u8` (decimal; the instruction table is the one `spec_to_generic!` selects),
 //!       `<env>` = `chainid,coinbase,timestamp,number,difficulty,prevrandao|-,gaslimit,basefee,gasprice,prio|-,origin,h1+h2..|-,blobgasprice|-,limit|-`
-//!   `i s <resp>`   one `Interpreter::step` (opcode fetch, pointer increment, table call), `<resp>` = the answer the host
+//!   `i s <tag> <resp>`   one `Interpreter::step` (opcode fetch, pointer increment, table call), `<resp>` = the answer the host
 //!       gives if it is asked during this instruction: `-` (= `None`) or `ok:word:bytes:cold:orig:pres:new:flags:deleg`
-//!   `i ret <result>:<gas remaining>:<refunded>:<output>:<address|->`   `insert_call_outcome` / `insert_create_outcome`
+//!   `i ret <tag> <result>:<gas remaining>:<refunded>:<output>:<address|->`   `insert_call_outcome` / `insert_create_outcome`
 //!       after the previous instruction returned `CallOrCreate`
-//!   `i dump`       full digests of stack / memory / return data
+//!   `i dump <tag>`  full digests of stack / memory / return data
 //!   reply of `s` / `ret`: `pc= r=<InstructionResult> g=<remaining> rf=<refunded> n=<stack len> top=<top 3 words> sd=<stack digest>
 //!       ms=<memory len> md=<memory digest> rd=<len>:<digest>` [` h=<host call with arguments>`] [` act=<call/create inputs>`] [` out=<len>:<digest>`]
 //!   `interp run <spec> .. <env> <hostq> <childq> <keccakq>`   `Interpreter::run` re-entered after every action until the frame returns
@@ -24,8 +24,10 @@ use revm::interpreter::{
     StateLoad,
 };
 use revm::primitives::{
+    eof::{EofBody, TypesSection},
     keccak256, spec_to_generic, Address, BlobExcessGasAndPrice, Bytecode, Bytes, Env, Log, SpecId, B256, U256,
 };
+use std::sync::Arc;
 use std::cell::{Cell, RefCell};
 use std::panic::AssertUnwindSafe;
 use std::rc::Rc;
@@ -503,7 +505,17 @@ impl EnvTok {
 }
 
 #[derive(Clone, Debug)]
+pub struct EofParams {
+    pub sections: Vec<Vec<u8>>,
+    pub types: Vec<(u8, u8, u16)>,
+    pub data: Vec<u8>,
+    pub data_size: u16,
+}
+
+#[derive(Clone, Debug)]
 pub struct Params {
+    /// `Some`: the contract is an EOF container (`begin eof`), `code` is unused
+    pub eof: Option<EofParams>,
     pub spec: u8,
     pub gas: u64,
     pub is_static: bool,
@@ -545,6 +557,7 @@ impl Params {
             return None;
         }
         Some(Params {
+            eof: None,
             spec: spec as u8,
             gas: parse_dec_u64(t[1])?,
             is_static: parse_bool(t[2])?,
@@ -556,10 +569,91 @@ impl Params {
             env: EnvTok::parse(t[8])?,
         })
     }
+    pub fn begin_line(&self) -> String {
+        match &self.eof {
+            None => format!("begin interp {}", self.tokens()),
+            Some(e) => {
+                let secs: Vec<String> = e.sections.iter().map(|c| hxb(c)).collect();
+                let types: Vec<String> = e.types.iter().map(|(i, o, m)| format!("{i}.{o}.{m}")).collect();
+                format!(
+                    "begin eof {} {} {} {} {} {} {} {} {} {} {} {}",
+                    self.spec,
+                    self.gas,
+                    b01(self.is_static),
+                    if secs.is_empty() { "-".to_string() } else { secs.join("+") },
+                    if types.is_empty() { "-".to_string() } else { types.join("+") },
+                    hxb(&e.data),
+                    e.data_size,
+                    hxb(&self.input),
+                    hx(self.target),
+                    hx(self.caller),
+                    hx(self.value),
+                    self.env.token()
+                )
+            }
+        }
+    }
+    fn parse_eof(t: &[&str]) -> Option<Params> {
+        if t.len() != 12 {
+            return None;
+        }
+        let sections: Vec<Vec<u8>> =
+            if t[3] == "-" { vec![] } else { t[3].split('+').map(parse_bytes).collect::<Option<Vec<_>>>()? };
+        if sections.is_empty() || sections.len() > 1024 || sections.iter().any(|c| c.len() > 0xffff) {
+            return None;
+        }
+        let types: Vec<(u8, u8, u16)> = if t[4] == "-" {
+            vec![]
+        } else {
+            t[4].split('+')
+                .map(|x| {
+                    let p: Vec<&str> = x.split('.').collect();
+                    if p.len() != 3 {
+                        return None;
+                    }
+                    let (i, o, m) = (parse_dec_u64(p[0])?, parse_dec_u64(p[1])?, parse_dec_u64(p[2])?);
+                    if i > 255 || o > 255 || m > 65535 {
+                        return None;
+                    }
+                    Some((i as u8, o as u8, m as u16))
+                })
+                .collect::<Option<Vec<_>>>()?
+        };
+        let data = parse_bytes(t[5])?;
+        let data_size = parse_dec_u64(t[6])?;
+        if data_size > 65535 || data.len() > 0xffff {
+            return None;
+        }
+        let legacy: Vec<&str> = vec![t[0], t[1], t[2], "-", t[7], t[8], t[9], t[10], t[11]];
+        let mut p = Params::parse(&legacy)?;
+        p.eof = Some(EofParams { sections, types, data, data_size: data_size as u16 });
+        Some(p)
+    }
+    fn bytecode(&self) -> Bytecode {
+        match &self.eof {
+            None => Bytecode::new_legacy(Bytes::from(self.code.clone())),
+            Some(e) => {
+                let body = EofBody {
+                    types_section: e
+                        .types
+                        .iter()
+                        .map(|(i, o, m)| TypesSection { inputs: *i, outputs: *o, max_stack_size: *m })
+                        .collect(),
+                    code_section: e.sections.iter().map(|c| Bytes::from(c.clone())).collect(),
+                    container_section: vec![],
+                    data_section: Bytes::from(e.data.clone()),
+                    is_data_filled: true,
+                };
+                let mut eof = body.into_eof();
+                eof.header.data_size = e.data_size;
+                Bytecode::Eof(Arc::new(eof))
+            }
+        }
+    }
     fn interpreter(&self) -> Interpreter {
         let contract = Contract::new(
             Bytes::from(self.input.clone()),
-            Bytecode::new_legacy(Bytes::from(self.code.clone())),
+            self.bytecode(),
             None,
             addr_of(self.target),
             None,
@@ -655,7 +749,59 @@ fn state_str(interp: &Interpreter) -> String {
         interp.shared_memory.len(),
         mem_window_digest(ctx),
         len_dig(&interp.return_data_buffer)
-    )
+    ) + &(if interp.is_eof {
+        format!(
+            " fs={}:{} cl={}",
+            interp.function_stack.return_stack.len(),
+            interp.function_stack.current_code_idx,
+            interp.bytecode.len()
+        )
+    } else {
+        String::new()
+    })
+}
+
+/// EOF mode: would the next instruction read an immediate outside the section, or is it one the model does not
+/// cover in EOF mode (EOFCREATE, RETURNCONTRACT, EXT*CALL; CODESIZE/CODECOPY are `assume!` violations there)?
+/// The interpreter itself checks none of this (validation does); executing it would be undefined behaviour.
+fn eof_danger(interp: &Interpreter) -> bool {
+    if !interp.is_eof {
+        return false;
+    }
+    let pc = interp.program_counter();
+    let code = &interp.bytecode;
+    if pc >= code.len() {
+        return false;
+    }
+    let op = code[pc];
+    let imm = match op {
+        0xe0 | 0xe1 | 0xe3 | 0xe5 | 0xd1 => 2,
+        0xe6 | 0xe7 | 0xe8 => 1,
+        0xe2 => {
+            if pc + 1 >= code.len() {
+                return true;
+            }
+            1 + (code[pc + 1] as usize + 1) * 2
+        }
+        0x60..=0x7f => (op - 0x5f) as usize,
+        0xec | 0xee | 0xf8 | 0xf9 | 0xfb | 0x38 | 0x39 => return true,
+        _ => 0,
+    };
+    if pc + 1 + imm > code.len() {
+        return true;
+    }
+    // CALLF / JUMPF into an empty section: the first fetch there would be outside
+    if op == 0xe3 || op == 0xe5 {
+        let idx = ((code[pc + 1] as usize) << 8) | code[pc + 2] as usize;
+        if let Some(eof) = interp.eof() {
+            if let Some(sec) = eof.body.code_section.get(idx) {
+                if sec.is_empty() {
+                    return true;
+                }
+            }
+        }
+    }
+    false
 }
 
 fn action_str(a: &InterpreterAction) -> Option<String> {
@@ -731,8 +877,15 @@ impl Session {
     }
     fn reply(&self) -> String {
         let pc = self.interp.program_counter();
-        // the check the planned hook inside `Interpreter::step` would make
-        if pc >= self.interp.bytecode.len() {
+        // the check the planned hook inside `Interpreter::step` would make: a pointer that will be dereferenced
+        // again (the frame continues) is inside the buffer; after a halting instruction it may be one past the end
+        // (STOP in the last padding byte), never further
+        let continues = matches!(
+            self.interp.instruction_result,
+            InstructionResult::Continue | InstructionResult::CallOrCreate
+        );
+        let len = self.interp.bytecode.len();
+        if (continues && pc >= len) || pc > len {
             return "oob-code".into();
         }
         let mut s = state_str(&self.interp);
@@ -764,6 +917,10 @@ impl Session {
         if danger(&self.interp) {
             self.dead = true;
             return "skip-bigmem".into();
+        }
+        if eof_danger(&self.interp) {
+            self.dead = true;
+            return "skip-eof".into();
         }
         self.host.resp.clear();
         self.host.resp.push_back(resp);
@@ -857,15 +1014,35 @@ impl Exec {
                     "bad-op".into()
                 }
             },
-            ["i", "s", resp] => match (&mut self.sess, Resp::parse(resp)) {
+            ["begin", "eof", rest @ ..] => match Params::parse_eof(rest) {
+                Some(p) => {
+                    let r = std::panic::catch_unwind(AssertUnwindSafe(|| Session::new(&p)));
+                    match r {
+                        Ok(s) => {
+                            let out = format!("ok len={} pc={}", s.interp.bytecode.len(), s.interp.program_counter());
+                            self.sess = Some(s);
+                            out
+                        }
+                        Err(_) => {
+                            self.sess = None;
+                            "panic".into()
+                        }
+                    }
+                }
+                None => {
+                    self.sess = None;
+                    "bad-op".into()
+                }
+            },
+            ["i", "s", _tag, resp] => match (&mut self.sess, Resp::parse(resp)) {
                 (Some(s), Some(r)) if !s.dead && !s.pending_action() => s.step(r),
                 _ => "bad-op".into(),
             },
-            ["i", "ret", child] => match (&mut self.sess, Child::parse(child)) {
+            ["i", "ret", _tag, child] => match (&mut self.sess, Child::parse(child)) {
                 (Some(s), Some(c)) => s.ret(&c),
                 _ => "bad-op".into(),
             },
-            ["i", "dump"] => match &self.sess {
+            ["i", "dump", _tag] => match &self.sess {
                 Some(s) if !s.dead => s.dump(),
                 _ => "bad-op".into(),
             },
@@ -1287,6 +1464,7 @@ fn gen_loop(r: &mut Rng) -> Vec<u8> {
 
 fn gen_params(r: &mut Rng, code: Vec<u8>) -> Params {
     Params {
+        eof: None,
         spec: gen_spec(r),
         gas: gen_gas(r),
         is_static: r.chance(1, 6),
@@ -1397,8 +1575,9 @@ fn keccak_resp(s: &Session) -> Resp {
 
 /// one lockstep case: `begin`, then instructions until the frame ends / `max_steps`
 fn gen_case(r: &mut Rng, p: &Params, max_steps: usize, out: &mut Out, lines: &mut Vec<String>) {
+    let case_id = lines.len();
     let mut ex = Exec::new();
-    let b = format!("begin interp {}", p.tokens());
+    let b = p.begin_line();
     let rep = ex.line(&b);
     lines.push(b);
     if !rep.starts_with("ok ") {
@@ -1417,7 +1596,7 @@ fn gen_case(r: &mut Rng, p: &Params, max_steps: usize, out: &mut Out, lines: &mu
                 _ => 0,
             };
             let c = gen_child(r, gl);
-            let l = format!("i ret {}", c.token());
+            let l = format!("i ret {}.r{} {}", case_id, lines.len(), c.token());
             let rep = ex.line(&l);
             lines.push(l);
             out.count("line:ret");
@@ -1433,9 +1612,13 @@ fn gen_case(r: &mut Rng, p: &Params, max_steps: usize, out: &mut Out, lines: &mu
             out.count("case:stopped-before-big-memory");
             break;
         }
+        if eof_danger(&sess.interp) {
+            out.count("case:stopped-before-unchecked-eof-instruction");
+            break;
+        }
         let op = sess.peek_opcode();
         let resp = if op == Some(0x20) { keccak_resp(sess) } else { gen_resp(r, op) };
-        let l = format!("i s {}", resp.token());
+        let l = format!("i s {}.{} {}", case_id, steps, resp.token());
         let rep = ex.line(&l);
         lines.push(l);
         steps += 1;
@@ -1453,7 +1636,7 @@ fn gen_case(r: &mut Rng, p: &Params, max_steps: usize, out: &mut Out, lines: &mu
         }
     }
     if ex.sess.as_ref().map(|s| !s.dead).unwrap_or(false) {
-        lines.push("i dump".to_string());
+        lines.push(format!("i dump {}", case_id));
     }
     out.count("case:step");
 }
@@ -1527,6 +1710,166 @@ fn gen_truncated_push(r: &mut Rng, out: &mut Out, lines: &mut Vec<String>, sampl
     }
 }
 
+// ---------------------------------------------------------------- EOF programs
+const EOF_PLAIN_OPS: &[u8] = &[
+    0x01, 0x03, 0x10, 0x15, 0x16, 0x19, 0x20, 0x30, 0x33, 0x34, 0x35, 0x36, 0x37, 0x3d, 0x3e, 0x50, 0x51, 0x52, 0x53,
+    0x54, 0x55, 0x59, 0x5b, 0x5e, 0x5f, 0x80, 0x81, 0x90, 0x91, 0xa0, 0xa1, 0xd0, 0xd2, 0xd3, 0xf7, 0x5c, 0x5d, 0x49,
+];
+
+enum EItem {
+    Raw(Vec<u8>),
+    /// RJUMP / RJUMPI to the start of item `target` (or a raw offset)
+    Jump { op: u8, target: usize, raw: Option<i16> },
+    /// RJUMPV with the given targets
+    JumpV { targets: Vec<usize>, raw: Option<i16> },
+}
+
+fn eof_operands(op: u8, r: &mut Rng) -> Vec<U256> {
+    match op {
+        0xd0 | 0xf7 => vec![match r.below(5) {
+            0 => U256::from(r.below(100)),
+            1 => U256::from(u64::MAX),
+            2 => U256::MAX,
+            _ => U256::from(r.below(40)),
+        }],
+        0xd3 => vec![gen_mem_word(r), gen_mem_word(r), gen_mem_word(r)],
+        _ => gen_operands(op, r, &[], 0),
+    }
+}
+
+fn gen_eof_section(r: &mut Rng, idx: usize, nsec: usize) -> Vec<u8> {
+    let k = r.range(2, 14) as usize;
+    let mut items: Vec<EItem> = vec![];
+    for _ in 0..k {
+        match r.below(20) {
+            0..=1 => {
+                // conditional / unconditional relative jump
+                let op = if r.chance(1, 3) { 0xe0 } else { 0xe1 };
+                if op == 0xe1 {
+                    let mut c = vec![];
+                    push_word(&mut c, if r.chance(1, 2) { U256::ZERO } else { r.word() }, r);
+                    items.push(EItem::Raw(c));
+                }
+                let raw = if r.chance(1, 12) { Some(r.next() as i16 % 64) } else { None };
+                items.push(EItem::Jump { op, target: r.below(k as u64 + 2) as usize, raw });
+            }
+            2 => {
+                let n = r.range(1, 4) as usize;
+                let mut c = vec![];
+                push_word(&mut c, match r.below(4) { 0 => U256::from(u64::MAX), 1 => U256::MAX, _ => U256::from(r.below(n as u64 + 2)) }, r);
+                items.push(EItem::Raw(c));
+                let raw = if r.chance(1, 12) { Some(r.next() as i16 % 64) } else { None };
+                items.push(EItem::JumpV { targets: (0..n).map(|_| r.below(k as u64 + 2) as usize).collect(), raw });
+            }
+            3 => {
+                // CALLF (mostly to an existing section)
+                let t = if r.chance(1, 15) { r.below(70000) } else { r.below(nsec as u64) };
+                items.push(EItem::Raw(vec![0xe3, (t >> 8) as u8, t as u8]));
+            }
+            4 => {
+                let off = if r.chance(1, 3) { r.next() as u16 } else { r.below(70) as u16 };
+                items.push(EItem::Raw(vec![0xd1, (off >> 8) as u8, off as u8]));
+            }
+            5 => {
+                let op = *r.pick(&[0xe6u8, 0xe7, 0xe8]);
+                let imm = if r.chance(1, 3) { r.next() as u8 } else { r.below(4) as u8 };
+                items.push(EItem::Raw(vec![op, imm]));
+            }
+            6 if idx > 0 => items.push(EItem::Raw(vec![0xe4])),
+            _ => {
+                let op = *r.pick(EOF_PLAIN_OPS);
+                let mut c = vec![];
+                let ops = eof_operands(op, r);
+                let drop = if r.chance(1, 25) { 1 } else { 0 };
+                for w in ops.iter().rev().skip(drop) {
+                    push_word(&mut c, *w, r);
+                }
+                c.push(op);
+                items.push(EItem::Raw(c));
+            }
+        }
+    }
+    // terminator
+    items.push(EItem::Raw(match r.below(6) {
+        0 if idx > 0 => vec![0xe4],
+        1 => {
+            let t = r.below(nsec as u64);
+            vec![0xe5, (t >> 8) as u8, t as u8]
+        }
+        2 => vec![0x5f, 0x5f, 0xf3],
+        3 => vec![0xfe],
+        _ => vec![0x00],
+    }));
+    // layout
+    let size = |it: &EItem| match it {
+        EItem::Raw(c) => c.len(),
+        EItem::Jump { .. } => 3,
+        EItem::JumpV { targets, .. } => 2 + 2 * targets.len(),
+    };
+    let mut pos = vec![0usize];
+    for it in &items {
+        pos.push(pos.last().unwrap() + size(it));
+    }
+    let at = |t: usize| -> i64 { pos[t.min(items.len() - 1)] as i64 };
+    let mut code = vec![];
+    for (i, it) in items.iter().enumerate() {
+        match it {
+            EItem::Raw(c) => code.extend_from_slice(c),
+            EItem::Jump { op, target, raw } => {
+                let base = pos[i] as i64 + 3;
+                let off = raw.unwrap_or((at(*target) - base) as i16);
+                code.push(*op);
+                code.extend_from_slice(&off.to_be_bytes());
+            }
+            EItem::JumpV { targets, raw } => {
+                let base = pos[i] as i64 + 2 + 2 * targets.len() as i64;
+                code.push(0xe2);
+                code.push((targets.len() - 1) as u8);
+                for (j, t) in targets.iter().enumerate() {
+                    let off = if j == 0 { raw.unwrap_or((at(*t) - base) as i16) } else { (at(*t) - base) as i16 };
+                    code.extend_from_slice(&off.to_be_bytes());
+                }
+            }
+        }
+    }
+    code
+}
+
+fn gen_eof_params(r: &mut Rng) -> Params {
+    let nsec = r.range(1, 4) as usize;
+    let sections: Vec<Vec<u8>> = (0..nsec)
+        .map(|i| if r.chance(1, 30) { gen_random_code(r) } else { gen_eof_section(r, i, nsec) })
+        .map(|c| if c.is_empty() { vec![0x00] } else { c })
+        .collect();
+    let types: Vec<(u8, u8, u16)> = (0..if r.chance(1, 20) { nsec - 1 } else { nsec })
+        .map(|_| {
+            let inputs = r.below(4) as u8;
+            let outputs = if r.chance(1, 4) { 0x80 } else { r.below(4) as u8 };
+            let max = match r.below(8) {
+                0 => r.below(inputs as u64 + 1) as u16,
+                1 => 1023,
+                2 => 1024,
+                3 => r.next() as u16,
+                _ => inputs as u16 + r.below(20) as u16,
+            };
+            (inputs, outputs, max)
+        })
+        .collect();
+    let data = match r.below(4) {
+        0 => vec![],
+        1 => rbytes(r, 1, 31),
+        _ => rbytes(r, 32, 100),
+    };
+    let data_size = if r.chance(1, 5) { data.len() as u16 + r.below(50) as u16 } else { data.len() as u16 };
+    let mut p = gen_params(r, vec![]);
+    p.spec = *r.pick(&[19u8, 255, 19, 18]);
+    if p.gas > 3_000_000 && r.chance(3, 4) {
+        p.gas = r.range(1000, 300_000);
+    }
+    p.eof = Some(EofParams { sections, types, data, data_size });
+    p
+}
+
 fn gen(seed: u64, n: usize, out: &mut Out) -> Vec<String> {
     let mut r = Rng::new(seed ^ 0xC25);
     let mut lines = vec![];
@@ -1536,6 +1879,12 @@ fn gen(seed: u64, n: usize, out: &mut Out) -> Vec<String> {
     gen_truncated_push(&mut r, out, &mut lines, !thorough);
     // DIFFICULTY under MERGE with `prevrandao = None`: the `unwrap()` of host_env.rs (excluded by `Env` validation)
     for _ in 0..n {
+        if r.chance(1, 8) {
+            let p = gen_eof_params(&mut r);
+            out.count("case:eof");
+            gen_case(&mut r, &p, 200, out, &mut lines);
+            continue;
+        }
         let which = r.below(100);
         let code = match which {
             0..=39 => {
